@@ -106,11 +106,12 @@ def check_C01(tier, seed, rest):
     from attempt import stages_run
     st = stages_run("base", base_corpus(tier, seed), tier)
     drift = ["after pass '%s' of Graph::new the graph of %s violates %s at path %s" % (x["stage"], x["def"], x["tag"], x["path"]) for x in st["viol"][:8]]
+    drift += ["Compile.tla: pass '%s' of Graph::new computes a different graph than the specification's pass on %s" % (x["pass"], x["def"]) for x in st.get("passdiff", [])[:8]]
     drift += drift_lines(b, None)
     import front
     ra = front.regex_agree_run(tier, seed)
     v += ra["findings"]
-    cov = a_coverage(r, {"regex_agree": {k: ra[k] for k in ("patterns", "accepted", "words", "states")}, "regex_agree_samples": ra["samples"][:2],
+    cov = a_coverage(r, {"regex_agree": {k: ra[k] for k in ("patterns", "accepted", "words", "states")}, "regex_agree_samples": ra["samples"][:2], "graph_passes_transcribed_and_compared": st.get("compile"),
                          "graph_pass_snapshots_checked": st["graphs"], "graph_pass_states": st["tlc"]["distinct"], "graph_pass_violations": st["n_viol"],
                          "graphlex_model_of_generated_code": b.get("graphlex"), "sequence_level_behaviours_replayed": b["behaviours"]})
     cov["states"] += st["tlc"]["distinct"] + (b["graphlex"]["distinct"] if b.get("graphlex") else 0)
